@@ -36,15 +36,14 @@ fn level_of(prop: &str) -> &'static str {
 /// (release bases, dev bases) per tier
 fn default_bases(prop: &str, thorough: bool) -> (u64, u64) {
     let (q, d) = match prop {
-        "C04" => (6_000, 1_500),
-        "C02" => (20_000, 4_000),
-        "C10" => (20_000, 4_000),
-        "C19" => (20_000, 3_000),
-        "C17" => (60_000, 8_000),
-        _ => (60_000, 8_000),
+        "C04" => (60_000, 12_000),
+        "C02" => (150_000, 20_000),
+        "C10" => (400_000, 60_000),
+        "C19" => (400_000, 50_000),
+        _ => (1_200_000, 150_000),
     };
     if thorough {
-        (q * 40, d * 20)
+        (q * 8, d * 5)
     } else {
         (q, d)
     }
@@ -103,7 +102,7 @@ pub fn check(a: &BTreeMap<String, String>) -> i32 {
 
     // ---- fan out
     let mut js: Vec<Job> = Vec::new();
-    let dev_jobs = if dev_bases > 0 { (jobs / 4).max(1) } else { 0 };
+    let dev_jobs = if dev_bases > 0 { jobs } else { 0 };
     let rel_jobs = jobs;
     for i in 0..rel_jobs {
         js.push(Job { bin: exe.clone(), from: i, to: bases, stride: rel_jobs, child: None, out_file: format!("{tmp}/rel-{i}.json"), started: Instant::now(), dev: false });
@@ -348,7 +347,7 @@ pub fn check(a: &BTreeMap<String, String>) -> i32 {
             "extra": extra,
         },
         "assumptions": [
-            "sampling, not proof: capacities <= 16, histories <= 24 operations, six element shapes",
+            "sampling, not proof: capacities <= 32 (256 for one C06 configuration), histories <= 24 operations, nine element shapes",
             "native runs detect memory errors through the object ledger, the 0xA5 poison hook, canaries and invariants; real undefined-behaviour detection comes from the separate Miri/ASan batches of the thorough tier",
             "the harness's own unsafe-free bookkeeping is trusted",
         ],
